@@ -171,6 +171,10 @@ class _Ctx:
         for st in stmts:
             r = c.stmt(st, env)
             if r is not None and ret is None: ret = r
+            elif r is not None and ret is not None and r.kind == 'array' and ret.kind == 'array' and len(r.axes) == len(ret.axes):
+                # two return sites of one function: the returned arrays must be laid out alike
+                for x, y in zip(ret.axes, r.axes):
+                    c.it.ob(c, 'returns-agree', same(x, y), f"one return site yields {show(x)}, another {show(y)}", st if isinstance(st, ast.AST) else None, (x, y))
         return ret
 
     def stmt(c, st, env):
@@ -192,6 +196,9 @@ class _Ctx:
             c.ev(st.test, env)
             c.guards.append((st.test, True)); r1 = c.block(st.body, env); c.guards.pop()
             c.guards.append((st.test, False)); r2 = c.block(st.orelse, env); c.guards.pop()
+            if r1 is not None and r2 is not None and r1.kind == 'array' and r2.kind == 'array' and len(r1.axes) == len(r2.axes):
+                for x, y in zip(r1.axes, r2.axes):
+                    c.it.ob(c, 'returns-agree', same(x, y), f"one branch returns {show(x)}, the other {show(y)}", st, (x, y))
             return r1 if r1 is not None else r2
         if isinstance(st, ast.Return):
             return c.ev(st.value, env) if st.value is not None else V('const', v=None)
@@ -554,6 +561,8 @@ class _Ctx:
             if b.kind == 'list' and f.attr == 'index' and args:
                 return V('index', space=b.space, offset=None, of=args[0])
             if b.kind == 'idxlist' and f.attr == 'index' and args:
+                if args[0].kind == 'index':
+                    c.it.ob(c, 'position-of', is_prefix(args[0].space, b.space), f"position of an index drawn from {show(args[0].space)} looked up in a list of indices of {show(b.space)}", e)
                 return V('index', space=b.result, offset=None, of=args[0])
             if b.kind == 'array' and f.attr in ('conjugate', 'conj', 'copy', 'astype'): return b
             if b.kind == 'array' and f.attr == 'any':
@@ -647,6 +656,8 @@ class _Ctx:
                 return V('array', axes=[sp])
             other = 1 - ax
             for p in parts[1:]:
+                if len(p.axes) == 1 and fn == 'vstack':
+                    c.it.ob(c, fn + ':other-axis', same(parts[0].axes[1], p.axes[0]), f"{show(parts[0].axes[1])} stacked above a row laid out as {show(p.axes[0])}", node, (parts[0].axes[1], p.axes[0]))
                 if len(p.axes) == 2:
                     c.it.ob(c, fn + ':other-axis', same(parts[0].axes[other], p.axes[other]), f"{show(parts[0].axes[other])} stacked next to {show(p.axes[other])}", node, (parts[0].axes[other], p.axes[other]))
             sp = parts[0].axes[ax]
@@ -777,15 +788,16 @@ _MAPPER_CACHE = {}
 
 def mapper_space(prog: Program, mod: Module, fn: ast.FunctionDef):
     """space of the LabelMapping returned by a mapper function `def f(network) -> LabelMapping`, derived from its body (None if not a mapper)"""
-    key = (mod.name, fn.name, id(fn))
-    if key in _MAPPER_CACHE: return _MAPPER_CACHE[key]
+    cache = prog.__dict__.setdefault('_mapper_cache', {})
+    key = (mod.name, fn.name)
+    if key in cache: return cache[key]
     ret = ast.unparse(fn.returns) if fn.returns is not None else ''
     pos = params_of(fn)[0]
     if 'LabelMapping' not in ret or len(pos) != 1 or fn.name == 'filter':
-        _MAPPER_CACHE[key] = None; return None
-    _MAPPER_CACHE[key] = U('recursive')
+        cache[key] = None; return None
+    cache[key] = U('recursive')
     it = Interp(prog)
     r = it.call_function(mod, fn, [V('network')], {}, None, None, 0)
     sp = r.space if r is not None and r.kind == 'map' else U('mapper:' + fn.name)
-    _MAPPER_CACHE[key] = sp
+    cache[key] = sp
     return sp
